@@ -452,7 +452,7 @@ def run(chk: core.Check) -> None:
         "line-break, bookmarks, notes, frames in every adjacency, a fifth with raw white-space runs) + generated text documents and presentations with 1..3 "
         "pictures, each added once to the package (Document.add_file from a file object or a path) and shown by 1..3 image frames in interleaved order "
         "(a logo on several pages / in several paragraphs), now and then an http picture and a text frame x pretty in {False, True} x packaging in "
-        "{zip, folder, xml} x save sequences (twice; pretty then plain). flat XML: besides the paragraph texts, every element at its depth with its "
+        "{zip, folder, xml} x save sequences (twice; pretty then plain; save / edit through a reference taken before the save / save again). flat XML: besides the paragraph texts, every element at its depth with its "
         "attribute values in the order of the plain zip save (meta, settings, styles, content), a picture of the package embedded with the bytes of its part "
         "at the draw:image that references it. non-trivial = a document whose paragraphs hold inline elements; distinct by (document, configuration)"
     )
@@ -573,6 +573,39 @@ def one_document(chk, rng, name, mk, tmp):
             continue
         if last != direct:
             chk.fail({**case, "clause": "save-sequence"}, "the last save of a sequence does not write what a single save writes")
+
+
+    # ---- a save, an edit through a reference taken BEFORE the save, a save again: the second save writes the edited document
+    #      (what a save prepared or cached must not survive an edit made without going through the part again)
+    from odfdo import Paragraph as _P
+
+    def late_edit(doc, body):
+        body.append(_P("late edit  after the first save"))
+        ps = body.get_paragraphs()
+        if ps:
+            ps[0].append(" +tail")
+
+    for seq in (("zip", True), ("zip", True)), (("folder", True), ("zip", True)), (("zip", False), ("zip", True)), (("zip", True), ("zip", False)):
+        case = {**case0, "sequence": [list(seq[0]), "edit through a reference taken before", list(seq[1])]}
+        chk.case((name, "edit-between", seq), nontrivial=True)
+        try:
+            doc = mk()
+            body = doc.body
+            if body is None:
+                continue
+            save_as(doc, seq[0][0], seq[0][1], tmp)
+            late_edit(doc, body)
+            last = part_bytes(save_as(doc, seq[1][0], seq[1][1], tmp))
+            ref = mk()
+            late_edit(ref, ref.body)
+            direct = part_bytes(save_as(ref, seq[1][0], seq[1][1], tmp))
+        except Exception as e:  # noqa: BLE001
+            chk.fail({**case, "exception": repr(e), "clause": "save-edit-save"}, f"save / edit / save raised {type(e).__name__}")
+            continue
+        if last != direct:
+            bad = sorted(n for n in set(last) | set(direct) if last.get(n) != direct.get(n)) if isinstance(last, dict) and isinstance(direct, dict) else None
+            chk.fail({**case, "clause": "save-edit-save", "parts": bad[:4] if bad else None},
+                     "after a save, an edit and a second save, the second save does not write the edited document (it differs from a single save of the same edited document)")
 
 
 def flat_structure(chk, case, want: dict, got: dict) -> None:
